@@ -35,6 +35,7 @@ def feasible(spec, limits):
     return all(c <= limits.get(k, 1) for k, c in lim.items()) and all(feasible(ch, limits) for ch in spec[3])
 
 
+KF_EARLYRETURN = "early-return:run-returns-while-created-jobs-are-never-settled"
 KF_FAILFAST = "fail-fast:run-raises-while-created-jobs-are-never-settled"
 
 
@@ -47,7 +48,7 @@ class Check(PropertyCheck):
                 "C09_no_lost_event", "C09_quiescent_all_settled", "C09_quiescent_nonvacuous",
                 "C09_event_lowers_potential", "C09_events_bounded", "C09_events_bounded_nonvacuous",
                 "C09_tree_steps_bounded", "C09_tree_step_decreases", "C09_tree_quiescent_settled", "C09_tree_nonvacuous",
-                "C09_fail_fast_leaves_unsettled_refuted"]
+                "C09_fail_fast_leaves_unsettled_refuted", "C09_early_return_leaves_unsettled_refuted"]
     theorem_modules = ["Props.C09Tree"]      # closed-program termination on the tree machine
     variant = None
     assumptions = [
@@ -112,6 +113,13 @@ class Check(PropertyCheck):
             o2 = sched.run_program(lambda: vm.call(spec), lim, rng, complete_prob=rng.choice([0.0, 0.3]))
             o2["limits"], o2["spec"] = lim, spec
             runs.append(("failing-holder", o2))
+        # a caught failure lets the root resolve while siblings of the failed call are still in flight
+        spec = ("er_root", "catch", 1, (("er_l", "list", 0, (("er_b", "raise", "boom", (), None), ("er_s1", "leaf", 1, (), None),
+                                                           ("er_s2", "leaf", 2, (), None)), None),), None)
+        for sd in range(4):
+            o2 = sched.run_program(lambda: vm.call(spec), {"r0": 1, "r1": 1}, random.Random(self.seed * 10 + sd), complete_prob=0.2)
+            o2["limits"], o2["spec"] = {"r0": 1, "r1": 1}, spec
+            runs.append(("caught-failure", o2))
         nd = 0
         for kind, o in runs:
             self.evaluations += 1
@@ -139,6 +147,19 @@ class Check(PropertyCheck):
                 self.findings.append(Finding(KF_FAILFAST, f"run raised {o['error']!r} while jobs {left[:6]} were created and "
                                              f"never settled (their Job rows stay RUNNING)",
                                              {"kind": kind, "spec": repr(o["spec"]), "limits": o["limits"], "unsettled": left}))
+        # the same for runs that RETURN: quiescent => every job created has ended (C09_quiescent_all_settled)
+        nr = 0
+        for kind, o in runs:
+            if "result" not in o:
+                continue
+            tr = o["tracer"]
+            left = [tr.jobid[j.id] for j in tr.jobobj if tr.status.get(j.id) not in (1, 2)]
+            if left:
+                nr += 1
+                self.findings.append(Finding(KF_EARLYRETURN, f"run returned {o['result']!r} while jobs {left[:6]} were created "
+                                             f"and never settled", {"kind": kind, "spec": repr(o["spec"]),
+                                                                    "limits": o["limits"], "unsettled": left}))
+        self.stat("oracle", "returning_runs_with_unsettled_jobs", nr)
         # C09_events_bounded on the real loop: events processed <= (7 + N) * N for N jobs created
         worst = 0.0
         for kind, o in runs:
